@@ -21,10 +21,10 @@ CHECKS = {
          'For every execution and every k in {1,2,3,5,#derivations+1,50}: returned scores == first min(k,#) of the sorted scores of all independently enumerated derivations, trees pairwise different, non-increasing, each valid and correctly scored.',
          'Trusted: derivation oracle; bounds n<=3 (4 for synthetic grammars).', '5/C10'),
  'C11': ('history', MC, 'exhaustive enumeration of batch histories x chunkings x pool completion schedules on a virtual pool; differential oracle (solo result)',
-         'All sequences (len<=3, with repetition) and permutations (size 4; 5 thorough) of a 6-sentence pool x processes {1..4} x max_chunk_size {0,1,2,20} x every completion schedule of the chunk tasks; depccg/parsing.py runs unmodified over a virtual Pool/time; result[i] must equal the solo result; every +-1 shape fault must raise before any parse_sentence call.',
+         'All sequences (len<=3, with repetition) and permutations (size 4; 5 thorough) of a 6-sentence pool x processes {1..4} x max_chunk_size {0,1,2,20} x every completion schedule of the chunk tasks; depccg/parsing.py runs unmodified over a virtual Pool/time (the number of chunk tasks is observed in a probe run); result[i] must equal the solo result; a second scenario explores equal-score ambiguity through derived categories whose ids depend on history (all 4^3 best-head assignments x warm-up histories); every +-1 shape fault must raise before any parse_sentence call.',
          'Trusted: virtual pool semantics (validated against real multiprocessing.Pool on two batches); all tasks share one interpreter; transliterated parsing.pyx.', '5/C11'),
  'C12': ('search', MC, 'bounded exhaustive enumeration of search executions over grammars with several results per pair; reader round trips over all licensed trees',
-         'Parser part: every node of every returned tree must carry (label, symbol, head direction) of a grammar result with that category for its children, and the stored rule index must name such a result (G4 has same-category results with different labels and two-target unary rules, both head directions). Reader part: every licensed derivation printed in each readable format and read back must carry the deriving rule label (and head direction where the format has no head field).',
+         'Parser part: every node of every returned tree must carry (label, symbol, head direction) of a grammar result with that category for its children, and the stored rule index must name such a result (G4 has same-category results with different labels and two-target unary rules, both head directions). Reader part: every licensed derivation printed in each readable format and read back must carry the deriving rule label (and head direction where the format has no head field); every history of <=3 (language, format) reading steps in one process, each from fresh module state, is judged against the active grammar.',
          'Trusted: grammar callbacks as ground truth; transliterated parsing.pyx.', '5/C12'),
  'C16': ('search', MC, 'exhaustive enumeration of tag rows x pruning_size x beta through parse_sentence against the admitted-set oracle',
          'Every combination of tag rows over {0,-1,-2,-4,-1e33} for n<=2 words x pruning_size {1,2,3} x beta {off,0.5,0.2,0.01} in a grammar where each tag choice yields a distinct derivation: leaves must be admitted, result must be the optimum over admitted-only derivations, failure iff none.',
@@ -42,10 +42,10 @@ CHECKS = {
          'Pattern pairs read from the grammar sources plus all canonical pattern pairs over <=3 variables/<=2 slashes, against all pairs of U(2) and all pool instantiations with feature perturbations: success iff the statement says so (unspecified zone not judged), bindings, failure and single-use behaviour.',
          'Trusted: mc/matcher.py reference; mixed-direction ternary variables / mixed feature systems / repeated variables in one pattern are unspecified.', '5/C06'),
  'C13': ('catspace', EX, 'exhaustive enumeration of ordered pairs of category values against an independent structural comparator',
-         'All ordered pairs of a size-ordered prefix of U(3) over both feature systems and three slashes: == iff identical, hash, != , ^ iff equal skeleton, string comparison iff canonical text; per value dict/set membership, clear_features over every subset of feature names.',
+         'All ordered pairs of a size-ordered prefix of U(3) over both feature systems and three slashes: == iff identical, hash, != , ^ iff equal skeleton, string comparison iff canonical text; per value dict/set membership, clear_features over every subset of feature names; values derived by clear_features and by the rule functions must be interchangeable (==, hash, set/dict) with equal values built from scratch.',
          'Trusted: mc/cats.py::key comparator; bound: all of U(2) plus a prefix of size 3 (larger prefix in thorough).', '5/C13'),
  'C14': ('catspace', MC, 'exhaustive enumeration of calls x every iteration order of the explorer-owned string set (schedule exploration of the hash-seed nondeterminism)',
-         'Every pair in the bounded spaces is applied under every iteration order of the set of shared variable names (the only hash-seed-dependent construct on the path), must not raise, must not mutate its arguments, must repeat; seen-rule filtering equals the unrestricted result or []; nb invariance; unary tables return exactly their targets. Subprocess digests under several real PYTHONHASHSEED values validate that the seam owns the nondeterminism.',
+         'Every pair in the bounded spaces is applied under every iteration order of the set of shared variable names (the only hash-seed-dependent construct on the path), must not raise, must not mutate its arguments, must repeat; seen-rule filtering equals the unrestricted result or []; nb invariance; unary tables (plain dict and defaultdict) return exactly their targets and are not modified; the U(2) shards are recomputed in the opposite order in a fresh process (call-history independence); the cached helper apply_rules. Subprocess digests under several real PYTHONHASHSEED values validate that the seam owns the nondeterminism.',
          'Trusted: seam covers all seed-dependent constructs (validated by digests under 4/16 real seeds); sets >4 elements get 25 orders only (counted).', '5/C14'),
  'C07': ('treespace', EX, 'exhaustive enumeration of trees x tokens x formats x batch shapes against independent decoders',
          'Licensed derivations of both grammars and every arbitrary tree shape (both head directions) x a 52-token alphabet x 10/9 formats x batch shapes: each output is read by an independent decoder written from the format description and must equal the projection of the derivation (words, shape, categories in the format spelling, labels, head flags, token attributes, offsets, conll heads, record numbering).',
